@@ -17,7 +17,7 @@ RULE = ('random count digraphs assembled from strongly connected blocks (directe
         'counts whose row sums exceed 255; 256..320 states with >255 components / kept ids >255 / >256 kept states '
         '(model skipped, oracle only). Every case: renumber_states True and False on ndarray and '
         'csr/csc/coo/lil/dok/dia/bsr matrices; a share also on np.matrix and the seven sparse *_array classes, and '
-        'with sparse inputs built from coo data holding explicit zeros and duplicate entries; the SAME object is '
+        'with sparse inputs holding explicit zeros and un-summed duplicate entries (coo, non-canonical csr/csc; thresholds 2..4 that only the summed value reaches); the SAME object is '
         'trimmed twice (after scribbling on the first mapping), results are fed back in, earlier results are '
         're-read after later calls. MSM(trim=True) fits of random assignments (padded / RaggedArray, int8..int64 '
         'and unsigned dtypes, explicit / inferred state count, counts >127, >255 states, fitted twice); random '
@@ -173,16 +173,27 @@ def make_container(case, kind):
                         rows.append(i)
                         cols.append(j)
                         data.append(0)
-                elif v >= 2 and (i + j) % 2 == 0:
-                    rows += [i, i]
-                    cols += [j, j]
-                    data += [v - 1, 1]
+                elif v >= 2 and (i + j) % 3 != 2:
+                    # un-summed duplicates: two halves, or (like assigns_to_counts output) unit entries
+                    parts = [v - v // 2, v // 2] if ((i + j) % 3 == 0 or v > 8 or v != int(v)) else [1] * int(v)
+                    rows += [i] * len(parts)
+                    cols += [j] * len(parts)
+                    data += parts
                 else:
                     rows.append(i)
                     cols.append(j)
                     data.append(v)
-        coo = getattr(sp, 'coo' + cls)((np.array(data, dtype=A.dtype), (np.array(rows, dtype=int), np.array(cols, dtype=int))),
-                                       shape=A.shape)
+        data, rows, cols = np.array(data, dtype=A.dtype), np.array(rows, dtype=int), np.array(cols, dtype=int)
+        if fmt in ('csr', 'csc'):
+            # NON-canonical compressed storage: duplicates left un-summed, minor indices unsorted, zeros stored
+            major, minor = (rows, cols) if fmt == 'csr' else (cols, rows)
+            order = np.argsort(major, kind='stable')[::-1]
+            order = order[np.argsort(major[order], kind='stable')]      # grouped by major, minor order reversed
+            indptr = np.concatenate([[0], np.cumsum(np.bincount(major, minlength=n))])
+            M = getattr(sp, fmt + cls)((data[order], minor[order], indptr), shape=A.shape)
+            assert (M.toarray() == A).all()
+            return M
+        coo = getattr(sp, 'coo' + cls)((data, (rows, cols)), shape=A.shape)
         return coo if fmt == 'coo' else coo.asformat(fmt)
     return getattr(sp, fmt + cls)(A)
 
@@ -331,7 +342,9 @@ def check_case(ctx, case, model_scc, model_trim):
     if mode == 'pos':
         tags.append('positional-arguments')
     if case.get('explicit_zeros'):
-        tags.append('sparse-explicit-zeros+duplicates')
+        tags.append('sparse-explicit-zeros+duplicates(coo-unsummed,noncanonical-csr/csc)')
+        if thr / scale >= 2:
+            tags.append('duplicates-with-threshold>=2')
     if case.get('extra_containers'):
         tags.append('np.matrix+sparse-arrays')
     if ncomp == n and n > 1:
@@ -358,8 +371,6 @@ def check_case(ctx, case, model_scc, model_trim):
             tags.append('kept-count>256')
         if case.get('_heavy_label', 0) > 255:
             tags.append('heaviest-scipy-label>255')
-    if case.get('_tie_relabelled'):
-        tags.append('tie-broken-differently-from-first-label')
     if model_scc is None:
         tags.append('model-skipped-' + str(case.get('model_skipped', 'large-n')))
     pub = {k: case[k] for k in CASE_KEYS if k in case}
@@ -480,7 +491,7 @@ def check_case(ctx, case, model_scc, model_trim):
         rows = list(csv.reader(io.StringIO(text)))
         if model_trim is not None:
             mt = model_trim[renumber]
-            if 'ok' in mt and mt['ok'].get('csv') != rows:
+            if 'ok' in mt and mt['ok'].get('to_original') == canon_mapping(m)['to_original'] and mt['ok'].get('csv') != rows:
                 ctx.disagreement('TrimMapping.write rows differ from the model',
                                  dict(pub, renumber=renumber, impl=rows, model=mt['ok'].get('csv')))
 
@@ -514,7 +525,9 @@ def check_case(ctx, case, model_scc, model_trim):
             return
         for f in ('to_original', 'to_mapped', 'matrix'):
             if mo[f] != ref[f]:
-                ctx.disagreement('model and implementation differ in %s (renumber=%s)' % (f, renumber),
+                ctx.disagreement('model and implementation differ in %s (renumber=%s)%s' % (
+                                 f, renumber, '; weights tie: the implementation did not pick the FIRST maximal scipy label'
+                                 if tie and sorted(o for _, o in ref['to_original']) in orc['heaviest'] else ''),
                                  dict(pub, renumber=renumber, model=mo[f], impl=ref[f]))
                 return
         if [mo['shape'], mo['shape']] != ref['shape']:
@@ -532,11 +545,12 @@ def scipy_labels(C, thr):
 
 
 def model_requests(case):
-    """scipy's numbering is a parameter of the model.  With a unique heaviest SCC the numbering scipy
-    produced is used as is.  When several SCCs tie for the maximal weight the property accepts any of
-    them, so the tie-break is taken from the implementation: the label of the component the real code
-    kept is swapped with the smallest label among the tied ones (still a valid numbering) and the model
-    must then reproduce the implementation's output for that choice."""
+    """scipy's numbering is a parameter of the model and is passed UNCHANGED (connected_components is
+    deterministic and depends only on the sparsity pattern, which is the same for the numerators as for the
+    thresholded counts the code hands over).  So also under weight ties the model's first-maximum choice
+    (theorem keep_label_first_max) must coincide with the implementation's pick; a different pick that is still a
+    heaviest SCC satisfies the property's predicate (no violation) but is reported as a model/implementation
+    disagreement (correspondence broken)."""
     C, thr = case['counts'], case['thr']
     if case.get('model_skipped') or len(C) > 40:
         case.setdefault('model_skipped', 'large-n')
@@ -546,16 +560,6 @@ def model_requests(case):
             case['_heavy_label'] = labels[h[0][0]]
         return []
     nsub, labels = scipy_labels(C, thr)
-    orc = oracle(C, thr)
-    if len(orc['heaviest']) > 1:
-        out = call_trim(make_container(case, 'ndarray'), actual_thr(case), True, case.get('scale', 1))
-        kept = sorted(o for _, o in out.get('to_original', []))
-        if kept in orc['heaviest']:
-            tied = sorted(labels[c[0]] for c in orc['heaviest'])
-            lk, l0 = labels[kept[0]], tied[0]
-            if lk != l0:
-                case['_tie_relabelled'] = True
-                labels = [l0 if x == lk else (lk if x == l0 else x) for x in labels]
     case['_labels'] = labels
     reqs = [{'op': 'C11.scc', 'counts': C, 'thr': thr}]
     for renumber in (True, False):
@@ -1073,6 +1077,15 @@ def run(ctx):
             c['extra_containers'] = bool(i % 8 == 3)
             c['explicit_zeros'] = bool(i % 8 == 7)
             c['call'] = 'pos' if i % 16 == 3 else 'kw'
+        cases.append(c)
+    for i in range(ctx.n(24, 240)):
+        # un-summed duplicate entries (as in assigns_to_counts output) with thresholds that only the SUM reaches
+        c = gen_structured(rng, FAMILIES[i % len(FAMILIES)]) if i % 3 else gen_uniform(rng)
+        vals = sorted({x for r in c['counts'] for x in r if x >= 2})
+        # a threshold that some stored sums reach exactly while every stored part stays below it
+        c['thr'] = int(rng.choice(vals)) if vals and rng.random() < 0.7 else int(rng.choice([2, 3, 4]))
+        c['explicit_zeros'] = True
+        c['family'] += '/duplicates'
         cases.append(c)
     for i in range(ctx.n(40, 400)):
         cases.append(gen_degenerate(rng))
